@@ -124,6 +124,21 @@ Proof.
 Qed.
 Print Assumptions C02_same_members_same_denotation.
 
+(* strings: the representation is a function of the denotation.  Two well-formed lists of character tuples (characters not
+   negative, at most one character per index) with the same denotation - in any insertion order, with any repetitions,
+   offsets and holes - are built by rel.NewSet to the very same String{offset, runes, hole count}; so the results are Equal.
+   This is C02_representation_is_function_of_denotation for the String representation; for the other representations
+   it is covered by the correspondence run only. *)
+Theorem C02_string_representation_is_function_of_denotation :
+  forall ms ms', ms <> [] ->
+    (forall v, In v ms -> exists a c, v = RTupChar a c /\ 0 <= c) ->
+    (forall v, In v ms' -> exists a c, v = RTupChar a c /\ 0 <= c) ->
+    (forall a c c', In (RTupChar a c) ms -> In (RTupChar a c') ms -> c = c') ->
+    mkset (map abs ms) = mkset (map abs ms') ->
+    build ms = build ms' /\ exists r, build ms = BOk r /\ build ms' = BOk r /\ rep_equal r r = true.
+Proof. exact string_representation_function_of_denotation. Qed.
+Print Assumptions C02_string_representation_is_function_of_denotation.
+
 Theorem C02_equal_soundness_is_decidable : forall ms, equal_sound_onb ms = true -> equal_sound_on ms.
 Proof. exact equal_sound_onb_ok. Qed.
 Print Assumptions C02_equal_soundness_is_decidable.
@@ -209,3 +224,8 @@ Proof.
   destruct (build probe_members) as [r| |] eqn:Eb; try (vm_compute in Eb; discriminate).
   exists r. split; [reflexivity|]. split; [exact Hw|]. split; [exact Hs|]. apply (C02_builder_denotes_members _ _ Eb Hw Hs).
 Qed.
+
+Example C02_string_probe :
+  build [RTupChar 3 99; RTupChar 1 97; RTupChar 3 99] = BOk (RStr 1 [97; -1; 99] 1) /\
+  build [RTupChar 1 97; RTupChar 3 99] = BOk (RStr 1 [97; -1; 99] 1).
+Proof. split; vm_compute; reflexivity. Qed.
